@@ -270,7 +270,12 @@ template<class Rep, int E>
         bool const acc = (dl >= -1 && dl <= 1) || (dh >= -1 && dh <= 1);
         if (!acc) {
             cnt.n[fastrec::WRONG_VALUE]++;
-            fastrec::violation(vcache, std::string("exp2/off_by_more_than_one/") + region, idf, [&] {
+            // rep 1 is what the "x is below the resolution" early return produces: its own class
+            char const* cls = (g == 1 && lo > 2) ? "exp2/below_resolution_result_for_x_above_resolution/" : "exp2/off_by_more_than_one/";
+            // how far off: the known accuracy defect (truncating polynomial steps) is 2..3 units too LOW, never more
+            i64 const err = (dl < 0 ? -dl : dl) < (dh < 0 ? -dh : dh) ? dl : dh;
+            std::string const mag = (g == 1 && lo > 2) ? std::string() : (err == -2 ? "low_by_2/" : (err == -3 ? "low_by_3/" : (err < 0 ? "low_by_4_or_more/" : "high_by_2_or_more/")));
+            fastrec::violation(vcache, std::string(cls) + mag + region, idf, [&] {
                 return xtext() + ": true 2^x truncates to rep " + vf::to_s(lo) + (lo != hi ? ".." + vf::to_s(hi) : std::string()) + ", got rep " + vf::to_s(g);
             });
             return;
